@@ -75,6 +75,7 @@ type VC struct {
 	compTypes map[string]types.Type
 	knownTag map[string]int
 	boxedLocals []boxed
+	deferred []string
 	asserts  []string
 	obligs   []*Obligation
 	counter  int
@@ -135,6 +136,9 @@ func (vc *VC) define(base, sort, term string) string {
 	if len(term) < 24 && !strings.Contains(term, " ") {
 		return term
 	}
+	if strings.HasPrefix(term, "|") && strings.Count(term, "|") == 2 && strings.HasSuffix(term, "|") {
+		return term // a single quoted symbol
+	}
 	n := vc.freshConst(base, sort)
 	vc.assert(fmt.Sprintf("(= %s %s)", n, term))
 	return n
@@ -156,6 +160,23 @@ func (vc *VC) assume(pc, f string) {
 	} else {
 		vc.assert(fmt.Sprintf("(=> %s %s)", pc, f))
 	}
+}
+
+// obligeLater: like oblige, but the fact is not assumed yet (callers assert a whole group afterwards, so
+// that the members of the group are decided independently of each other).
+func (vc *VC) obligeLater(kind, name, pc, goal string, pos token.Position, desc string) *Obligation {
+	n := len(vc.asserts)
+	o := vc.oblige(kind, name, pc, goal, pos, desc)
+	vc.asserts = vc.asserts[:n]
+	vc.deferred = append(vc.deferred, o.Goal)
+	return o
+}
+
+func (vc *VC) flushDeferred() {
+	for _, g := range vc.deferred {
+		vc.assert(g)
+	}
+	vc.deferred = nil
 }
 
 func (vc *VC) oblige(kind, name, pc, goal string, pos token.Position, desc string) *Obligation {
@@ -388,6 +409,7 @@ type State struct {
 	heap  map[string]string
 	alloc string
 	wr    *writeRec // dry runs: what has been written on the way to this state
+	defers []deferRec
 }
 
 func (s *State) clone() *State {
@@ -401,6 +423,7 @@ func (s *State) clone() *State {
 	if s.wr != nil {
 		n.wr = s.wr.clone()
 	}
+	n.defers = s.defers
 	return n
 }
 
@@ -448,6 +471,17 @@ func (vc *VC) mergeStates(conds []string, states []*State) *State {
 		return states[0].clone()
 	}
 	out := &State{cells: map[*ssa.Alloc]string{}, heap: map[string]string{}}
+	out.defers = states[0].defers
+	for _, s := range states[1:] {
+		if len(s.defers) != len(out.defers) {
+			unsup("paths with different pending defers meet (conditional defer)")
+		}
+		for i := range s.defers {
+			if s.defers[i].ins != out.defers[i].ins {
+				unsup("paths with different pending defers meet (conditional defer)")
+			}
+		}
+	}
 	for _, s := range states {
 		if s.wr != nil {
 			if out.wr == nil {
